@@ -44,7 +44,7 @@ def cases(draw: Any, tier: str) -> dict:
                     elif k == "svc":
                         steps.append({"op": "svc"})
                     else:
-                        steps.append({"op": "td", "pass_exc": k == "td_exc"})
+                        steps.append({"op": "td", "pass_exc": k == "td_exc", "nested": d.pct(25)})
                 c[ph] = steps
             else:
                 c[ph] = None
@@ -154,10 +154,19 @@ class Interp:
                     await anyio.sleep(st_["d"])
                 elif op == "td":
                     mark = "td:" + name
+
+                    def cb(*a: Any, m: str = mark, nested: bool = bool(st_.get("nested"))) -> None:
+                        interp.ran.append(m)
+                        if nested:
+                            # registered during teardown: runs next (LIFO)
+                            add_teardown_callback(lambda: interp.ran.append(m + "+late"))
+
+                    if st_.get("nested"):
+                        interp.registered.append(mark + "+late")  # (runs after its registrar: listed first)
                     if st_.get("pass_exc"):
-                        add_teardown_callback(lambda exc, m=mark: interp.ran.append(m), pass_exception=True)
+                        add_teardown_callback(lambda exc, cb=cb: cb(exc), pass_exception=True)
                     else:
-                        add_teardown_callback(lambda m=mark: interp.ran.append(m))
+                        add_teardown_callback(cb)
                     interp.registered.append(mark)
                 elif op in ("svc", "svc_signal", "svc_crash"):
                     mark = "svc:" + name
